@@ -5,6 +5,9 @@
  *   pool sowr <capacity> <base>      base: alloc_idx preset (multiple of the rounded capacity; the
  *                                    state after <base> allocations and frees) to reach the uint32 wrap
  *   pool ring <capacity> <locked>    locked = 1: muggle_ring_memory_pool_threadsafe_alloc
+ *                                    capacity 0 .. 128 as REQUESTED (ts: 0 is refused; sowr: 0 means 8;
+ *                                    ring: below 2 means 2; all: rounded up to a power of two)
+ *   dsize <n>                        data_size given to init, 1 .. 4096 (default 24)
  *   thr <script>                     one line per thread; script = comma separated ops, "-" = none
  *                                      a     allocate
  *                                      f<k>  free the k-th (mod n) block of the shared list of outstanding
@@ -17,19 +20,26 @@
  * Notes (R lines): "a" alloc called; "r b<k>" returned block k; "r b<k> DUP" returned a block
  * the ownership map still holds; "r NULL <n>" NULL with n blocks in the map; "f b<k>" free called;
  * "f skip"; anomalies "r BADPTR ..", "r b<k> OVERLAP b<j>", "f b<k> CORRUPT", "AUDIT .." (ring audit, below).
- * Output: the event trace, then summary lines "F ...". */
+ * Every returned block's whole user region [p, p + data_size) must lie inside the block (behind its head),
+ * inside the slab the pool obtained from the allocator, and be disjoint from the user region of every
+ * outstanding block; it is filled with a per-block pattern that is verified when the block is freed.
+ * Output: the event trace, then summary lines "F ..." ("F geom": block geometry as init computed it;
+ * slab = usable size of the data area as the allocator reports it: under ASan the requested size). */
 #include "vdrv.h"
 #include "vsched/vsched.h"
+#include "muggle/c/base/err.h"
 #include "muggle/c/memory/threadsafe_memory_pool.h"
 #include "muggle/c/memory/sowr_memory_pool.h"
 #include "muggle/c/memory/ring_memory_pool.h"
 #include <unistd.h>
+#include <malloc.h>
 
 enum { K_NONE = 0, K_TS, K_SOWR, K_RING };
-#define DATA_SIZE 24
 #define MAXOUT 256
+#define MAXCAP 128
 
-static int kind, cap_req, locked, nthreads;
+static int kind, cap_req, locked, nthreads, dsize;
+static size_t slab;
 static unsigned long long base;
 static char scripts[VS_MAXT][512];
 static char sched[8192];
@@ -73,9 +83,9 @@ static void ts_audit(void)
 	long cap = (long)tsp.capacity, bs = (long)tsp.block_size;
 	long a = (long)tsp.alloc_idx, f = (long)tsp.free_idx;
 	long n = (f + cap - a) % cap;
-	int seenb[64];
+	int seenb[MAXCAP];
 	if (n == 0) n = cap;
-	if (cap > 64) return;
+	if (cap > MAXCAP) return;
 	memset(seenb, 0, sizeof(seenb));
 	for (long k = 0; k < n; k++) {
 		long pos = (a + k) & (cap - 1);
@@ -101,6 +111,12 @@ static void ts_audit(void)
 	}
 }
 
+/* per-block, per-owner, per-offset pattern written over the whole user region */
+static unsigned char pattern(int blk, int owner, int i)
+{
+	return (unsigned char)(0xA0 + owner + 13 * blk + 7 * i);
+}
+
 static void *do_alloc(void)
 {
 	if (kind == K_TS) return muggle_ts_memory_pool_alloc(&tsp);
@@ -121,15 +137,16 @@ static void op_alloc(int me)
 	if (!p) { vs_note("r NULL %d", nout); return; }
 	long off = (char *)p - pool_base();
 	long bs = pool_bsize();
-	if (off < 0 || off >= bs * pool_cap() || off % bs != head_size() || bs < head_size() + DATA_SIZE) {
+	if (off < 0 || bs <= 0 || off >= bs * pool_cap() || off % bs != head_size() || bs < head_size() + dsize ||
+		(size_t)off + (size_t)dsize > slab) {
 		anomalies++;
 		vs_note("r BADPTR %ld", off);
 		return;
 	}
 	int blk = (int)(off / bs);
-	/* byte ranges [p, p + DATA_SIZE) of everything outstanding must be disjoint from the new one */
+	/* byte ranges [p, p + data_size) of everything outstanding must be disjoint from the new one */
 	for (int i = 0; i < nout; i++) {
-		if (p < out[i].p + DATA_SIZE && out[i].p < p + DATA_SIZE) {
+		if (p < out[i].p + dsize && out[i].p < p + dsize) {
 			if (out[i].blk == blk && out[i].p == p) {
 				dups++;
 				vs_note("r b%d DUP", blk);
@@ -140,7 +157,7 @@ static void op_alloc(int me)
 			return;
 		}
 	}
-	memset(p, 0xA0 + me, DATA_SIZE);
+	for (int i = 0; i < dsize; i++) p[i] = pattern(blk, me, i);
 	if (nout < MAXOUT) { out[nout].p = p; out[nout].blk = blk; out[nout].owner = me; nout++; }
 	vs_note("r b%d", blk);
 }
@@ -170,7 +187,7 @@ static void op_free(int me, int own, int k)
 	if (j < 0) { vs_note("f skip"); return; }
 	unsigned char *p = out[j].p;
 	int blk = out[j].blk, owner = out[j].owner, bad = 0;
-	for (int i = 0; i < DATA_SIZE; i++) if (p[i] != (unsigned char)(0xA0 + owner)) bad = 1;
+	for (int i = 0; i < dsize; i++) if (p[i] != pattern(blk, owner, i)) bad = 1;
 	if (kind == K_SOWR) {
 		memmove(&out[0], &out[j + 1], sizeof(out[0]) * (size_t)(nout - j - 1));
 		nout -= j + 1;
@@ -202,7 +219,7 @@ static void worker(void *arg)
 
 static void case_begin(void)
 {
-	kind = K_NONE; nthreads = 0; cap_req = 0; locked = 0; base = 0;
+	kind = K_NONE; nthreads = 0; cap_req = -1; locked = 0; base = 0; dsize = 24;
 	strcpy(sched, "rand 1 50 0 0");
 }
 
@@ -211,6 +228,7 @@ static void case_line(char *line)
 	char op[32], k[32];
 	if (sscanf(line, "%31s", op) != 1) return;
 	if (strcmp(op, "sched") == 0) { snprintf(sched, sizeof(sched), "%s", line + 6); return; }
+	if (strcmp(op, "dsize") == 0) { sscanf(line, "%*s %d", &dsize); return; }
 	if (strcmp(op, "pool") == 0) {
 		unsigned long long x = 0;
 		k[0] = 0;
@@ -249,12 +267,16 @@ static void summary(void)
 	printf("F out");
 	for (int i = 0; i < nout; i++) printf(" b%d:%d", out[i].blk, out[i].owner);
 	printf("\n");
+	printf("F geom bs=%ld head=%ld dsize=%d slab=%lu\n", pool_bsize(), head_size(), dsize, (unsigned long)slab);
 	if (anomalies) printf("F anomalies=%d\n", anomalies);
 }
 
 static void case_end(void)
 {
-	if (kind == K_NONE || nthreads <= 0 || nthreads > VS_MAXT || cap_req < 1 || cap_req > 64) { printf("F badcase\n"); return; }
+	if (kind == K_NONE || nthreads <= 0 || nthreads > VS_MAXT || cap_req < 0 || cap_req > MAXCAP || dsize < 1 || dsize > 4096) {
+		printf("F badcase\n");
+		return;
+	}
 	nout = dups = anomalies = 0;
 	{
 		int na = 0;
@@ -270,21 +292,26 @@ static void case_end(void)
 	vs_set_schedule(sched);
 	int rc;
 	if (kind == K_TS) {
-		rc = muggle_ts_memory_pool_init(&tsp, (muggle_sync_t)cap_req, DATA_SIZE);
+		rc = muggle_ts_memory_pool_init(&tsp, (muggle_sync_t)cap_req, (muggle_sync_t)dsize);
+		if (rc == MUGGLE_ERR_INVALID_PARAM) { printf("F init refused\n"); return; }
 		if (rc != 0) { printf("F init %d\n", rc); return; }
 		vs_name(&tsp.alloc_idx, "alloc"); vs_name(&tsp.free_idx, "free"); vs_name(&tsp.free_spinlock, "lock");
 	} else if (kind == K_SOWR) {
-		rc = muggle_sowr_memory_pool_init(&sop, (muggle_sync_t)cap_req, DATA_SIZE);
+		rc = muggle_sowr_memory_pool_init(&sop, (muggle_sync_t)cap_req, (muggle_sync_t)dsize);
+		if (rc == MUGGLE_ERR_INVALID_PARAM) { printf("F init refused\n"); return; }
 		if (rc != 0 || sop.blocks == NULL) { printf("F init %d\n", rc ? rc : -1); return; }
 		if (base % sop.capacity != 0 || base > 0xFFFFFFFFULL) { printf("F badcase\n"); muggle_sowr_memory_pool_destroy(&sop); return; }
 		sop.alloc_idx = (muggle_sync_t)base;
 		vs_name(&sop.free_idx, "free");
 	} else {
-		rc = muggle_ring_memory_pool_init(&rip, (muggle_sync_t)cap_req, DATA_SIZE);
+		rc = muggle_ring_memory_pool_init(&rip, (muggle_sync_t)cap_req, (muggle_sync_t)dsize);
+		if (rc == MUGGLE_ERR_INVALID_PARAM) { printf("F init refused\n"); return; }
 		if (rc != 0) { printf("F init %d\n", rc); return; }
 		vs_name(&rip.write_spinlock, "lock");
 		vs_name_range(&((muggle_ring_mpool_block_head_t *)rip.blocks)->in_use, rip.block_size, rip.capacity, "u");
 	}
+	slab = malloc_usable_size(pool_base());
+	if (pool_cap() > MAXCAP) { printf("F badcase\n"); return; }
 	for (int i = 0; i < nthreads; i++) vs_spawn(worker, scripts[i]);
 	int st = vs_run();
 	summary();
